@@ -167,6 +167,10 @@ Fixpoint get_method (fx : bool) (fuel : nat) (dev : list object) (o : object) {s
         | Some tgt =>
             match apply_override fx c ov tgt with
             | None => Fail AssertFail
+            | Some (OBlock _ bname off rep _) =>
+                (* since /repo's repair of D9 a block ref only gets its accessor (own offset and repeat, the
+                   target's struct); the target block is collected where it is declared, not a second time *)
+                Ok ({| m_name := name; m_kind := MBlock bname; m_address := off; m_repeat := rep; m_allow := false |}, [])
             | Some o' =>
                 match get_method fx f dev o' with
                 | Fail k => Fail k
